@@ -135,6 +135,19 @@ class Checker(C.BaseChecker):
             return []
         out = []
         lhs, rhs, stop = set(p["lhs_called_contests"]), set(p["rhs_called_contests"]), set(p["stop_model_call"])
+        keys0 = R.aggregate_keys(ex.world["office"], "postal_code")
+        modelled = {"_".join(str(r[k]) for k in keys0) for r in plain.tables["state_data"].to_dict("records")}
+        ghosts = (lhs | rhs | stop) - modelled
+        if ghosts:
+            # a contest of the world that has no unit in the model's data yet (drop policy: nothing delivered there, e.g. a
+            # state whose polls close later) is 'a contest that is not being modelled': naming it must raise
+            st.probes["call_names_a_contest_without_data_yet"] += 1
+            st.state(("ghost_contest", ex.world["office"]), True)
+            if rec.ok:
+                return [self.v("invalid_call_accepted", f"contests {sorted(ghosts)} have no unit in the data yet but naming them produced estimates", why="not_modelled_yet")]
+            if rec.exc_type != "elexmodel.models.BootstrapElectionModel.BootstrapElectionModelException":
+                return [self.v("invalid_call_wrong_error", f"naming contests without data {sorted(ghosts)} raised {rec.exc_type}: {rec.exc_msg}", why="not_modelled_yet")]
+            return []
         if not rec.ok:
             return [self.v("valid_calls_failed", f"valid calls lhs={sorted(lhs)} rhs={sorted(rhs)} stop={sorted(stop)} made the run fail: {rec.exc_type}: {rec.exc_msg}")]
         keys = R.aggregate_keys(ex.world["office"], "postal_code")
